@@ -1,0 +1,36 @@
+/*
+ *  Verification hooks. Compiled only with the cargo feature `verif`.
+ *
+ *  This module only re-exports internal items (and adds thin wrappers around
+ *  crate-private functions) so that the out-of-tree verification harness can
+ *  drive the real implementation. It adds no behaviour of its own.
+ */
+
+pub use crate::auth::{JwtClaims, Privileges, pattern_matches};
+pub use crate::store::{PersistedStore, Store, StoreError, StoreNode};
+pub use crate::subscribers::{EventSender, LsSubscriber, Subscriber, Subscribers};
+pub use crate::worterbuch::{PStateAggregator, Worterbuch};
+
+use crate::Config;
+use crate::persistence::error::PersistenceResult;
+use worterbuch_common::{GraveGoods, LastWill};
+
+pub async fn apply_grave_goods(wb: &mut Worterbuch, grave_goods: GraveGoods) {
+    wb.apply_grave_goods(grave_goods).await
+}
+
+pub async fn apply_last_wills(wb: &mut Worterbuch, last_wills: LastWill) {
+    wb.apply_last_wills(last_wills).await
+}
+
+pub async fn apply_all_grave_goods_and_last_wills(wb: &mut Worterbuch) {
+    wb.apply_all_grave_goods_and_last_wills().await
+}
+
+pub async fn json_flush_synchronous(wb: &mut Worterbuch, config: &Config) -> PersistenceResult<()> {
+    crate::persistence::verif_json_synchronous(wb, config).await
+}
+
+pub async fn json_load(config: &Config) -> PersistenceResult<Worterbuch> {
+    crate::persistence::verif_json_load(config).await
+}
